@@ -112,6 +112,18 @@ func c15Run(op string, k int, mode string, in []byte) (res string, after []strin
 		sigs, _ := p.Signatures()
 		if err != nil {
 			same = before == p.VerifState() && bytes.Equal(bb, p.Bytes()) && len(sigs) == 0
+			// the caller tries again with a signer that works: what it gets must be a valid signature of the image
+			if same {
+				if _, err2 := p.Sign(&recSigner{key: key}, cert); err2 == nil {
+					q, perr := authenticode.Parse(bytes.NewReader(p.Bytes()))
+					if perr != nil {
+						return "ok-wrong-value", nil, true, signer.calls
+					}
+					if ok, verr := q.Verify(cert); !ok || verr != nil {
+						return "ok-wrong-value", nil, true, signer.calls
+					}
+				}
+			}
 		}
 		return errRes(err), nil, same, signer.calls
 	case "sign/WriteSignedUpdate":
@@ -235,11 +247,22 @@ func c15Run(op string, k int, mode string, in []byte) (res string, after []strin
 		if err != nil {
 			return "setup-failed", nil, true, 0
 		}
+		bytesBefore := p.Bytes()
 		fr.armed = true
 		switch op {
 		case "reader/Hash":
 			h := p.Hash(crypto.SHA256)
 			if h == nil {
+				// a failed read-only call leaves the object as it was: it still serialises to the same file
+				if n0 := fr.n; !bytes.Equal(bytesBefore, p.Bytes()) {
+					return "err", nil, false, n0
+				}
+				// the source works again and the caller asks once more: then the digest is the right one
+				if h2 := p.Hash(crypto.SHA256); h2 != nil {
+					if clean, cerr := authenticode.Parse(bytes.NewReader(in)); cerr == nil && !bytes.Equal(h2, clean.Hash(crypto.SHA256)) {
+						return "ok-wrong-value", nil, true, fr.n
+					}
+				}
 				return "err", nil, true, fr.n
 			}
 			// a digest was returned although a read failed: it must at least be the right one
@@ -258,6 +281,19 @@ func c15Run(op string, k int, mode string, in []byte) (res string, after []strin
 			if err != nil {
 				sigs, _ := p.Signatures()
 				same = before == p.VerifState() && len(sigs) == len(sigs0)
+				// the source works again and the caller signs once more: the result verifies
+				if n0 := fr.n; same {
+					if _, err2 := p.Sign(key, cert); err2 == nil {
+						q, perr := authenticode.Parse(bytes.NewReader(p.Bytes()))
+						if perr != nil {
+							return "ok-wrong-value", nil, true, n0
+						}
+						if ok, verr := q.Verify(cert); !ok || verr != nil {
+							return "ok-wrong-value", nil, true, n0
+						}
+					}
+					return errRes(err), nil, same, n0
+				}
 			}
 			return errRes(err), nil, same, fr.n
 		default:
